@@ -57,6 +57,7 @@ type vCheck struct {
 	run         func(c *vCtx)
 	replay      func(c *vCtx, raw json.RawMessage)
 	companion   func(c *vCtx) // body of the -race companion (plain flavour)
+	also        []string      // ids of further parts (registered as checks "<ID>.<part>") merged into this check by the driver
 }
 
 var vChecks = map[string]*vCheck{}
@@ -199,7 +200,7 @@ func VerifMain() {
 		if ck.shards != nil {
 			n = ck.shards(*tier)
 		}
-		json.NewEncoder(os.Stdout).Encode(map[string]any{"flavour": ck.flavour, "race": ck.race, "shards": n, "level": ck.level})
+		json.NewEncoder(os.Stdout).Encode(map[string]any{"flavour": ck.flavour, "race": ck.race, "shards": n, "level": ck.level, "also": ck.also})
 		return
 	}
 	log.SetOutput(io.Discard)
